@@ -88,6 +88,12 @@ static std::vector<Op<OC>> make_ops(size_t n, size_t nh) {
   add("C:=SC(G,point,one-coefficient)", [=](P &p) { std::vector<std::array<S, OC + 1>> cs(1); for (auto &x : cs[0]) x = mki<S>(1); p.c = Spline<S, OC>(Support<S>(p.G, 1, 2), cs); }, {{FRESH, C, -1}});
   add("U:=Support(G,2,1)", [=](P &p) { p.u = Support<S>(p.G, 2, 1); }, {{FRESH, U, -1}});
   add("U:=Support(G,0,n+1)", [=](P &p) { p.u = Support<S>(p.G, 0, n + 1); }, {{FRESH, U, -1}});
+  // every shape of an inconsistent index pair: end 0 with start > 0, equal non-zero indices, start beyond the grid
+  add("U:=Support(G,1,0)", [=](P &p) { p.u = Support<S>(p.G, 1, 0); }, {{FRESH, U, -1}});
+  add("U:=Support(G,n+1,0)", [=](P &p) { p.u = Support<S>(p.G, n + 1, 0); }, {{FRESH, U, -1}});
+  add("U:=Support(G,n,n)", [=](P &p) { p.u = Support<S>(p.G, n, n); }, {{FRESH, U, -1}});
+  add("U:=Support(G,n+1,n+2)", [=](P &p) { p.u = Support<S>(p.G, n + 1, n + 2); }, {{FRESH, U, -1}});
+  add("A:=S1(Support(G,2,0),{})", [=](P &p) { p.a = Spline<S, 1>(Support<S>(p.G, 2, 0), {}); }, {{FRESH, A, -1}});
   // ---- copies and moves ------------------------------------------------------------
   add("A=B", [](P &p) { p.a = p.b; }, {{COPY, A, B}});
   add("B=A", [](P &p) { p.b = p.a; }, {{COPY, B, A}});
